@@ -227,8 +227,10 @@ pub fn bulk_frame<const H: usize, const P: usize>() {
     match &r {
         Ok(Some(RespValue::BulkString(None))) => {
             assert!(buf.len() == P, "C20 null bulk string consumes exactly its header line");
+            assert!(H == 2 && hdr[0] == b'-' && hdr[1] == b'1', "C21 a length other than -1 decoded as the null bulk string");
         }
         Ok(Some(RespValue::BulkString(Some(d)))) => {
+            assert!(!(H == 2 && hdr[0] == b'-' && hdr[1] == b'1'), "C21 length -1 must decode as the null bulk string");
             // payload of length L followed by CRLF, consumed exactly
             let l = d.len();
             assert!(l + 2 <= P, "C21 bulk payload longer than what was received");
@@ -379,6 +381,44 @@ pub fn array_elems<const K: usize>(count: usize) {
     std::mem::forget((r, buf, v));
 }
 
+/// The same with the shortest possible elements, `_ CRLF` (3 bytes): count <= K must decode to `count` nulls.
+pub fn array_nulls<const K: usize>(count: usize) {
+    let mut v: Vec<u8> = Vec::with_capacity(3 * K + 8);
+    v.push(b'*');
+    v.push(b'0' + count as u8);
+    v.push(b'\r');
+    v.push(b'\n');
+    let mut i = 0;
+    while i < K {
+        v.push(b'_');
+        v.push(b'\r');
+        v.push(b'\n');
+        i += 1;
+    }
+    let trailing: u8 = kani::any(); // one byte of a following frame may or may not have arrived
+    let with_trailing: bool = kani::any();
+    if with_trailing {
+        v.push(trailing);
+    }
+    let n = v.len();
+    set_layout(&[2, 1, 1, 1, 1, 1, 1, 1]);
+    let mut buf = BytesMut::from(&v[..]);
+    let r = RespValue::decode(&mut buf);
+    if count <= K {
+        match &r {
+            Ok(Some(RespValue::Array(items))) => {
+                assert!(items.len() == count, "C20 array has the declared number of elements");
+                assert!(buf.len() == n - 4 - 3 * count, "C20 array consumes its header and exactly its elements");
+            }
+            _ => assert!(false, "C20 a complete array of nulls was not decoded"),
+        }
+    } else {
+        assert!(classify(&r) == 1 && buf.len() == n, "C20 an array with missing elements must wait without consuming");
+    }
+    vk_cover!(true, "reach");
+    std::mem::forget((r, buf, v));
+}
+
 /// A declared element count of up to D decimal digits with nothing after the header: the decoder must
 /// answer (need more data / error) without reserving storage for the declared count.
 pub fn array_huge_count<const D: usize>() {
@@ -504,6 +544,18 @@ pub fn reply_line<const L: usize>(err: bool) {
     assert!(first_crlf(&out) == Some(out.len() - 2), "C22 a reply line contains a CRLF before its end: it decodes as more than one frame");
     vk_cover!(true, "reach");
     std::mem::forget((v, out, r));
+}
+
+/// The payload-free replies have one fixed encoding each.
+pub fn reply_fixed() {
+    let mut out: Vec<u8> = Vec::with_capacity(8);
+    assert!(RespValue::Null.encode(&mut out).is_ok() && &out[..] == b"_\r\n", "C22 encoding of Null");
+    let mut out2: Vec<u8> = Vec::with_capacity(8);
+    assert!(RespValue::BulkString(None).encode(&mut out2).is_ok() && &out2[..] == b"$-1\r\n", "C22 encoding of the null bulk string");
+    let mut out3: Vec<u8> = Vec::with_capacity(8);
+    assert!(RespValue::Array(Vec::new()).encode(&mut out3).is_ok() && &out3[..] == b"*0\r\n", "C22 encoding of the empty array");
+    vk_cover!(true, "reach");
+    std::mem::forget((out, out2, out3));
 }
 
 /// Bulk string reply with L arbitrary bytes: exact wire layout  $<L> CRLF <bytes> CRLF.
